@@ -1,12 +1,23 @@
 #!/usr/bin/env python3
-"""maintenance helper: freeze the function inventory of the current /repo tree as the reference for engine/normalize.py
+"""maintenance helper: freeze the function and field inventory of the current /repo tree as the reference for engine/normalize.py
 (run after a deliberate change of /repo such as a fix commit; never run by a check)"""
 import json, os, sys
 os.environ["VERIF_NO_NORMALIZE"] = "1"
 sys.path.insert(0, "/verif")
 from engine import facts
 F = facts.load()
-keys = sorted(k for k, f in F.fns.items() if f.crate in ("saphyr_parser", "saphyr"))
-json.dump({"note": "function keys of the reference tree (saphyr-parser and saphyr); functions not listed here that are private, non-recursive and closure-free are inlined "
-                   "into their callers before the rules run", "functions": keys}, open("/verif/tables/known_functions.json", "w"), indent=0)
-print(len(keys), "functions")
+fns = {}
+for k, f in sorted(F.fns.items()):
+    if f.crate not in ("saphyr_parser", "saphyr"):
+        continue
+    callees = sorted({ck for _, _, ck, _ in f.calls() if ck})
+    fns[k] = {"sig": [f.d.get("inputs"), f.d.get("output")], "impl": f.d.get("impl_adt"), "kind": f.kind, "pub": bool(f.d.get("pub")),
+              "trait": f.d.get("impl_trait") or f.d.get("trait_of"), "blocks": len(f.blocks), "callees": callees}
+adts = {}
+for p, a in sorted(F.adts.items()):
+    if p.startswith(("saphyr_parser::", "saphyr::")):
+        adts[p] = [[(fld["name"], fld["ty"]) for fld in v["fields"]] for v in a["variants"]]
+json.dump({"note": "reference inventory (saphyr-parser and saphyr): function keys with signature / callee fingerprints and ADT field lists. engine/normalize.py maps "
+                   "renamed private functions and fields back to these names and inlines private helpers that are not listed",
+           "functions": sorted(fns), "fingerprints": fns, "adts": adts}, open("/verif/tables/known_functions.json", "w"), indent=0)
+print(len(fns), "functions,", len(adts), "types")
